@@ -59,18 +59,19 @@ class Net(Check):
 
     def __init__(self, pid):
         self.id = pid
-        self.rule = ("all networks: (1 channel, 1..3 fibers) and (2 channels, 1..2 fibers) with total operations <= T (T=4 quick, 5 thorough; "
+        self.rule = ("all networks (channels, launched fibers, total operations): quick (1,1-4,<=5) (2,1-3,<=4); thorough (1,1-3,<=7) (1,4,<=5) (2,1,<=6) (2,2,<=5) (2,3,<=4) ("
                      "symmetric fibers merged); structured families beyond that bound (producer/consumer pipelines with 0-4 sends / 0-4 receives joined through a done channel over capacities 0-3, fan-in, fan-out, ping-pong; up to 12 operations); plus the nested family (one operation inside a native iterator callback) "
                      "for T<=3; per network: model explored over all schedules, VM trace replayed against it. non-trivial = network whose "
                      "model has >= 2 fibers interacting on a channel (some receive or blocked send)")
 
     def gen(self, tier):
-        T = 5 if tier == "thorough" else 4
-        for nch, fibs in ((1, (1, 2, 3)), (2, (1, 2))):
-            for nf in fibs:
-                t = T if not (nch == 2 and nf == 2 and tier == "thorough") else 4
-                for kinds, fibers in N.networks(nch, nf, t):
-                    yield (kinds, fibers, None)
+        if tier == "thorough":
+            plan = [(1, 1, 7), (1, 2, 7), (1, 3, 7), (1, 4, 5), (2, 1, 6), (2, 2, 5), (2, 3, 4)]
+        else:
+            plan = [(1, 1, 5), (1, 2, 5), (1, 3, 5), (1, 4, 5), (2, 1, 4), (2, 2, 4), (2, 3, 4)]
+        for nch, nf, t in plan:
+            for kinds, fibers in N.networks(nch, nf, t):
+                yield (kinds, fibers, None)
         # structured families beyond the operation bound: producer/consumer pipelines joined through a `done` channel, fan-in, fan-out, ping-pong
         for spec in structured(tier):
             yield spec
